@@ -156,9 +156,9 @@ func (p *pending) addPair(cs Case) {
 func run(c *core.Ctx) int {
 	rng := core.NewRng(c.Seed, 14)
 	cfgs := allConfigs()
-	nPrng := c.N(3, 40)         // PRNG histories per configuration
-	exhStride := c.N(13, 2)     // every n-th accepting configuration gets the exhaustive length-3 set (stride co-prime to the 8 allocator x kind combinations)
-	heavyBudget := c.N(10, 60)  // pairs of really-allocating 4 GiB histories (default allocator)
+	nPrng := c.N(3, 40)        // PRNG histories per configuration
+	exhStride := c.N(13, 1)    // every n-th accepting configuration gets the exhaustive length-3 set (13 is co-prime to the 8 allocator x kind combinations; thorough: all)
+	heavyBudget := c.N(10, 60) // pairs of really-allocating 4 GiB histories (default allocator)
 	var normal, heavyP pending
 	var heavyCand []Case
 	nAcc := 0
